@@ -75,6 +75,39 @@ def run(tier, seed, open_findings):
             if viol or outcome.startswith('OTHER'):
                 fails.append(dict(case=dict(mode=mode, mechanism=mech, spelling=sp, location=loc.replace(root, '<root>'), explicit_base_url=with_base), observed=dict(outcome=outcome, fetched=[(k, p.replace(root, '<root>')) for k, p in viol]),
                                   required='no fetch outside the allowed class; only library exceptions'))
+        # the main schema given as something that has no location of its own (a parsed tree, an open file, a text stream) under allow='sandbox' without a base_url: there is
+        # no sandbox root to derive, so nothing outside the data's directory may be fetched through it (the library refuses such a resource)
+        from xml.etree import ElementTree as PET
+        def src_kinds(path):
+            return {'etree': lambda: PET.parse(path), 'element': lambda: PET.parse(path).getroot(), 'open-bin': lambda: open(path, 'rb'), 'open-text': lambda: open(path),
+                    'stringio': lambda: io.StringIO(open(path).read()), 'bytesio': lambda: io.BytesIO(open(path, 'rb').read())}
+        for mech, (sp, loc) in itertools.product(['include', 'redefine', 'import', 'hint'], [(k, v) for k, v in SPELL.items() if k in ('inside-abs', 'evil-abs', 'evil-url', 'sibling-rel', 'url-dots-out', 'remote')]):
+            tag = {'include': f'<xs:include schemaLocation="{loc}"/>', 'redefine': f'<xs:redefine schemaLocation="{loc}"/>', 'hint': '',
+                   'import': f'<xs:import namespace="urn:i" schemaLocation="{loc.replace("inc.xsd", "imp.xsd")}"/>'}[mech]
+            open(main, 'w').write(f'<xs:schema {XS}>{tag}<xs:element name="r"><xs:complexType><xs:sequence><xs:any minOccurs="0" processContents="lax"/></xs:sequence>'
+                                  f'<xs:anyAttribute processContents="skip"/></xs:complexType></xs:element></xs:schema>')
+            docp = os.path.join(base, 'doc.xml')
+            open(docp, 'w').write(f'<r xmlns:xsi="http://www.w3.org/2001/XMLSchema-instance" xmlns:i="urn:i" xsi:schemaLocation="urn:i {loc.replace("inc.xsd", "imp.xsd")}"><i:y/></r>')
+            for sk in src_kinds(main):
+                n += 1; _events.clear(); outcome = 'ok'; src = None
+                try:
+                    opener = urllib.request.build_opener(Stub)
+                    if mech == 'hint':
+                        sch = xmlschema.XMLSchema10(main, allow='sandbox', opener=opener)
+                        src = src_kinds(docp)[sk]()
+                        list(sch.iter_errors(src, use_location_hints=True))
+                    else:
+                        src = src_kinds(main)[sk]()
+                        xmlschema.XMLSchema10(src, allow='sandbox', opener=opener)
+                except XMLSchemaException as e: outcome = type(e).__name__
+                except Exception as e: outcome = 'OTHER:' + type(e).__name__ + ': ' + str(e)[:80]
+                finally:
+                    if hasattr(src, 'close'): src.close()
+                own = {os.path.realpath(main), os.path.realpath(docp)}
+                viol = [(k, p_) for k, p_ in _events if not (k == 'open' and p_ in own) and not allowed('sandbox', 'open' if k == 'open' else 'remote', p_, base)]
+                if viol or outcome.startswith('OTHER'):
+                    fails.append(dict(case=dict(mode='sandbox', mechanism=mech, spelling=sp, location=loc.replace(root, '<root>'), source_kind=sk, explicit_base_url=False),
+                                      observed=dict(outcome=outcome, fetched=[(k, p_.replace(root, '<root>')) for k, p_ in viol]), required='no fetch outside the allowed class; only library exceptions'))
         # document-level API: the schema is built by the API itself from the instance's location hint, with the caller's allow mode
         hint_doc = os.path.join(base, 'hinted.xml')
         for mode, (sp, loc) in itertools.product(['all', 'none', 'local', 'remote', 'sandbox'], SPELL.items()):
